@@ -6,10 +6,12 @@ From Boltons Require Import Lib.Prelude Lib.C15_Float Spec.C15_Spec Model.C15_Mo
 
 Record c15_case := mkCase {
   c_p : params float;           (* the call *)
-  c_fuel : nat;                 (* bound for the model's default-count loop / the stall search *)
+  c_fuelN : N;                  (* bound for the model's default-count loop / the stall search *)
   c_draws : list float;         (* values returned by random.random(), in order *)
   c_obs : obs float             (* what the implementation did *)
 }.
+
+Definition c_fuel (c : c15_case) : nat := N.to_nat (c_fuelN c).
 
 Definition obs_eqb (a b : obs float) : bool :=
   list_eqb float_same (o_vals a) (o_vals b) && ending_eqb (o_end a) (o_end b).
